@@ -1,5 +1,6 @@
 import Rbp.Model.Hex
 import Rbp.Model.Script
+import Rbp.Model.Run
 
 /-! Line-protocol driver of the executable model: `rbp-model <cmd>` answers one line per request line. -/
 open Hex
@@ -33,6 +34,46 @@ def answer (cmd : String) (line : String) : String :=
   | "script" => answerScript toks
   | _ => "bad-command"
 
+/-! ### `run`: whole-program scenarios (DESIGN Appendix D) -/
+
+structure ScenAcc where
+  opts : Run.Opts := ⟨"bitcoin", false, 0, none, "csvdump"⟩
+  key : Option (List UInt8) := none
+  kvs : List (List UInt8 × List UInt8) := []
+  files : List Run.BlkFile := []
+
+def scenLine (a : ScenAcc) (toks : List String) : ScenAcc :=
+  match toks with
+  | ["opts", coin, v, s, e, cb] =>
+    { a with opts := ⟨coin, v == "1", s.toNat!, if e == "-" then none else some e.toNat!, cb⟩ }
+  | ["xorkey", k] => { a with key := if k == "none" then none else some (parseHex k) }
+  | ["kv", k, v] => { a with kvs := (parseHex k, parseHex v) :: a.kvs }
+  | ["kv", k] => { a with kvs := (parseHex k, []) :: a.kvs }
+  | ["file", name, size] => { a with files := a.files ++ [⟨name, size.toNat!, []⟩] }
+  | ["seg", name, off, data] =>
+    { a with files := a.files.map fun f => if f.name == name then { f with segs := f.segs ++ [⟨off.toNat!, parseHex data⟩] } else f }
+  | _ => a
+
+def renderOutput (o : Run.Output) : List String :=
+  [s!"exit {o.exit}", s!"errheight {match o.errHeight with | some h => toString h | none => "-"}", s!"msg {o.msg}",
+   "delivered " ++ " ".intercalate (o.delivered.map toString),
+   "hashes " ++ " ".intercalate (o.hashes.map Csv.hashHex)] ++
+  o.files.flatMap (fun (n, ls) => s!"file {n} {ls.length}" :: ls.map ("row " ++ ·)) ++
+  o.stdout.map ("out " ++ ·) ++
+  o.events.map (fun e => match e with | .opening f => s!"ev open {f}" | .closing f => s!"ev close {f}") ++
+  ["done"]
+
+partial def runLoop (hin hout : IO.FS.Stream) (a : ScenAcc) : IO Unit := do
+  let line ← hin.getLine
+  if line.isEmpty then return ()
+  let toks := (line.trimAscii.toString.splitOn " ").filter (· ≠ "")
+  if toks == ["end"] then
+    let o := Run.run a.opts a.key a.kvs a.files
+    for l in renderOutput o do hout.putStrLn l
+    hout.flush
+    runLoop hin hout {}
+  else runLoop hin hout (scenLine a toks)
+
 partial def loop (cmd : String) (hin : IO.FS.Stream) (hout : IO.FS.Stream) : IO Unit := do
   let line ← hin.getLine
   if line.isEmpty then return ()
@@ -44,7 +85,7 @@ def main (args : List String) : IO UInt32 := do
   | [cmd] =>
     let hin ← IO.getStdin
     let hout ← IO.getStdout
-    loop cmd hin hout
+    if cmd == "run" then runLoop hin hout {} else loop cmd hin hout
     hout.flush
     return 0
   | _ =>
